@@ -14,7 +14,7 @@ TOL = 1e-9
 REL = Fraction(1, 10 ** 9)
 
 # every storage a matrix signal can arrive in: dense ndarray and every scipy.sparse format (matrix and array flavour)
-STORES = {'dense': lambda A: A, 'dense_F': np.asfortranarray, 'csc': sps.csc_matrix, 'csr': sps.csr_matrix, 'coo': sps.coo_matrix, 'lil': sps.lil_matrix,
+STORES = {'dense': lambda A: np.array(A, order='C', copy=True), 'dense_F': lambda A: np.array(A, order='F', copy=True), 'csc': sps.csc_matrix, 'csr': sps.csr_matrix, 'coo': sps.coo_matrix, 'lil': sps.lil_matrix,
           'dok': sps.dok_matrix, 'bsr': sps.bsr_matrix, 'dia': sps.dia_matrix, 'csc_array': sps.csc_array,
           'csr_array': sps.csr_array, 'coo_array': sps.coo_array, 'lil_array': sps.lil_array, 'dok_array': sps.dok_array,
           'bsr_array': sps.bsr_array, 'dia_array': sps.dia_array}
@@ -242,6 +242,10 @@ def run(ctx):
                 return refused('LinSolve', stor, e)
             ctx.violation('impl-violates', 'LinSolve._response', 'response raises for a non-singular matrix', f'{cls} matrix {stor}', dict(replay, error=repr(e)))
             return
+        if not (np.array_equal(sA.state.toarray() if sps.issparse(sA.state) else np.asarray(sA.state), A) and np.array_equal(sb.state, b)):
+            ctx.evaluations += 1
+            ctx.violation('impl-violates', 'LinSolve._response', 'input signals untouched', f'{cls} matrix {stor}', replay)
+            return
         A_exact = cq_matrix(A)
         B = cq_matrix(b)
         X = cq_solve(A_exact, B)
@@ -460,7 +464,7 @@ def run(ctx):
             impl_fail('SystemOfEquations._response', 'x and b have the result type of matrix, loads, prescribed values and float',
                       f'{adt} matrix {stor}, {dts[0]} bf, {dts[1]} xp', replay, expected=str(want), got=dict(x=str(xdt), b=str(bdt)))
         # inputs stay untouched (fix F12)
-        if sA.state.shape != A.shape:
+        if not np.array_equal(sA.state.toarray() if sps.issparse(sA.state) else np.asarray(sA.state), A):
             impl_fail('SystemOfEquations._response', 'input matrix signal untouched', icls, replay)
 
     def soe_dts(cplxA, sparse):
@@ -559,7 +563,7 @@ def run(ctx):
         elif Ar.dtype != np.result_type(A.dtype, float):
             impl_fail('StaticCondensation._response', 'the condensed matrix has the result type of the matrix and float', f'{dkind(A)} matrix {stor}',
                       replay, expected=str(np.result_type(A.dtype, float)), got=str(Ar.dtype))
-        if sA.state.shape != A.shape:
+        if not np.array_equal(sA.state.toarray() if sps.issparse(sA.state) else np.asarray(sA.state), A):
             impl_fail('StaticCondensation._response', 'input matrix signal untouched', f'{cls} matrix {stor}', replay)
 
     nmax_sc = 3 if ctx.quick() else 4
@@ -673,6 +677,211 @@ def run(ctx):
             sc_case(cls, A, name, [2], [3, 0], stor)
             inv_case(cls, A, name, stor)
     ctx.extra['dtype_stress'] = dict(matrices=[v[2] for v in variants], storages=list(STORES), accepted={k: sorted(v) for k, v in ACCEPTED.items()})
+
+    # ------------------------------------------------------------------ input integrity x memory layout x repeated evaluation
+    # (deterministic, every seed; oracle + a few Coq cases).  Every caller-owned array (matrix, right-hand side, loads, prescribed
+    # values, sensitivity seeds) is handed over in every memory layout; after response() and after sensitivity() it must be the SAME
+    # object holding bit-identical data; the defining equation must hold for the array the input SIGNAL holds after the call; a second
+    # response() on the untouched signals and a second module instance on the SAME signals must return the same output.
+    LAY2 = ('C', 'F', 'T-view', 'strided', 'reversed', 'readonly-F')
+    LAY1 = ('C', 'strided', 'reversed', 'readonly')
+
+    def lay(v, kind):
+        v = np.asarray(v)
+        if kind == 'C':
+            return np.array(v, order='C', copy=True)
+        if kind == 'F':
+            return np.array(v, order='F', copy=True)
+        if kind == 'T-view':                                  # Fortran-contiguous view that does not own its data
+            return np.array(v.T, order='C', copy=True).T
+        if kind == 'strided':
+            big = np.zeros(tuple(2 * k for k in v.shape), dtype=v.dtype)
+            sl = tuple(slice(None, None, 2) for _ in v.shape)
+            big[sl] = v
+            return big[sl]
+        if kind == 'reversed':                                # negative strides
+            sl = tuple(slice(None, None, -1) for _ in v.shape)
+            return np.array(v[sl], order='C', copy=True)[sl]
+        w = np.array(v, order='F' if kind == 'readonly-F' else 'C', copy=True)
+        w.setflags(write=False)
+        return w
+
+    def snap(v):
+        if sps.issparse(v):
+            return ('sp', v.format, v.copy(), v.dtype, v.shape)
+        return ('nd', np.array(v, copy=True), v.dtype, v.shape, v.strides, v.flags['C_CONTIGUOUS'], v.flags['F_CONTIGUOUS'])
+
+    def intact(v, s):
+        """same container kind, dtype, shape, memory layout and bit-identical data"""
+        if s[0] == 'sp':
+            if not (sps.issparse(v) and v.format == s[1] and v.dtype == s[3] and v.shape == s[4]):
+                return False
+            c = s[2]
+            for attr in ('data', 'indices', 'indptr', 'row', 'col'):
+                if hasattr(c, attr) and isinstance(getattr(c, attr), np.ndarray):
+                    if not (hasattr(v, attr) and np.array_equal(getattr(v, attr), getattr(c, attr))):
+                        return False
+            return np.array_equal(v.toarray(), c.toarray())
+        return isinstance(v, np.ndarray) and v.dtype == s[2] and v.shape == s[3] and v.strides == s[4] and \
+            v.flags['C_CONTIGUOUS'] == s[5] and v.flags['F_CONTIGUOUS'] == s[6] and np.array_equal(v, s[1])
+
+    def dense_of(v):
+        return v.toarray() if sps.issparse(v) else np.asarray(v)
+
+    def same_out(a, b):
+        a, b = dense_of(a), dense_of(b)
+        return a.shape == b.shape and a.dtype == b.dtype and np.array_equal(a, b)
+
+    def integrity(module, make, inputs, seeds_for, equation, replay, coq_second=None):
+        """inputs: list of (tag, caller-owned object); make(signals) -> module; seeds_for(outputs) -> list of seed arrays (or None);
+        equation(states held by the input signals, outputs) -> bool; coq_second(outputs of the second response) -> Coq check or None"""
+        ctx.search_evaluations += 1
+        ctx.count(f'integrity:{module}')
+        owned = [o for _, o in inputs]
+        snaps = [snap(o) for o in owned]
+        sigs = [pym.Signal(t, o) for t, o in inputs]
+        icls = 'inputs ' + ', '.join(f'{t}:{l}' for (t, _), l in zip(inputs, replay['layouts']))
+
+        def fail(pred, **extra):
+            ctx.violation('impl-violates', f'{module}._response' if 'sensitivity' not in pred else f'{module}._sensitivity', pred, icls, dict(replay, **extra))
+
+        def inputs_ok(when):
+            for (t, o), sg, sn in zip(inputs, sigs, snaps):
+                if sg.state is not o:
+                    fail(f'input signal still holds the caller\'s object after {when}', input=t)
+                    return False
+                if not intact(o, sn):
+                    fail(f'input state bit-identical after {when}', input=t,
+                         before=dense_of(sn[2] if sn[0] == 'sp' else sn[1]).tolist().__repr__()[:600], after=dense_of(o).tolist().__repr__()[:600])
+                    return False
+            return True
+        try:
+            mod = make(sigs)
+            mod.response()
+            out1 = [s_.state for s_ in mod.sig_out]
+            keep1 = [dense_of(o).copy() for o in out1]
+        except Exception as e:
+            fail('response raises for a non-singular matrix in this memory layout', error=repr(e))
+            return
+        if not inputs_ok('response()'):
+            return
+        if not equation([sg.state for sg in sigs], out1):
+            fail('defining equation holds for the arrays the input signals hold after response()')
+            return
+        # sensitivity with caller-owned seeds
+        seeds = seeds_for(out1)
+        ssn = [None if sd is None else snap(sd) for sd in seeds]
+        try:
+            for so, sd in zip(mod.sig_out, seeds):
+                so.sensitivity = sd
+            mod.sensitivity()
+        except Exception as e:
+            fail('sensitivity() raises after a valid response', error=repr(e))
+            return
+        if not inputs_ok('sensitivity()'):
+            return
+        for sd, sn in zip(seeds, ssn):
+            if sd is not None and not intact(sd, sn):
+                fail('sensitivity seed bit-identical after sensitivity()')
+                return
+        if not all(same_out(o, k) for o, k in zip(out1, keep1)):
+            fail('output state unchanged by sensitivity()')
+            return
+        # a second instance on the SAME signals, then the first one again
+        try:
+            mod2 = make(sigs)
+            mod2.response()
+            outb = [dense_of(s_.state).copy() for s_ in mod2.sig_out]
+            mod.response()
+            out2 = [s_.state for s_ in mod.sig_out]
+        except Exception as e:
+            fail('second response() on untouched signals raises', error=repr(e))
+            return
+        if not inputs_ok('a second instance and a second response()'):
+            return
+        if not all(same_out(o, k) for o, k in zip(outb, keep1)):
+            fail('a second module instance on the same signals returns the same output')
+            return
+        if not all(same_out(o, k) for o, k in zip(out2, keep1)):
+            fail('a second response() on untouched signals returns the same output')
+            return
+        if not equation([sg.state for sg in sigs], out2):
+            fail('defining equation holds after the second response()')
+            return
+        if coq_second is not None:
+            add((module + '-integrity', replay['matrix'], tuple(replay['layouts']), replay), coq_second(out2), True)
+
+    def seed_like(o, k):
+        o = dense_of(o)
+        v = np.array([[(rng.randint(-3, 3) or 1) for _ in range(o.shape[1] if o.ndim > 1 else 1)] for _ in range(o.shape[0])], dtype=float)
+        v = v.reshape(o.shape)
+        if np.iscomplexobj(o):
+            v = v + 1j * np.roll(v, 1, axis=0)
+        return lay(v, (LAY2 if v.ndim == 2 else LAY1)[k % (4 if v.ndim == 2 else 2)])
+
+    def a_of(states):
+        return dense_of(states[0])
+
+    base = [(cls, A, name) for (cls, A, name) in stress]
+    kk = 0
+    for (cls, A, name) in base:
+        n = A.shape[0]
+        cplxA = np.iscomplexobj(A)
+        Aex = cq_matrix(A)
+        Binv = cq_inverse(Aex)
+        mat_layouts = [(l, (lambda l=l: lay(A, l))) for l in LAY2] + [(f, (lambda f=f: STORES[f](A))) for f in ('csc', 'csr', 'coo', 'lil')]
+        for ml, mk_a in mat_layouts:
+            sparse = ml not in LAY2
+            # ---- Inverse (dense only)
+            if not sparse:
+                integrity('Inverse', lambda sg: pym.Inverse(sg), [('A', mk_a())], lambda outs: [seed_like(outs[0], kk)],
+                          lambda st, outs: close(a_of(st) @ dense_of(outs[0]), np.eye(n)),
+                          dict(module='Inverse', matrix=name, layouts=[ml], A=A.tolist().__repr__()),
+                          coq_second=lambda outs: f'check_inv {coq_cmat(Aex)} {coq_cmat(Binv)} {coq_cmat(cq_matrix(dense_of(outs[0])))} {vlib.qlit(REL * scale_of(Binv))}')
+            # ---- StaticCondensation
+            if ml in ACCEPTED['StaticCondensation'] or not sparse:
+                m_, f = [0, 3], [1, 2]
+                Sref = A[np.ix_(m_, m_)] - A[np.ix_(m_, f)] @ np.linalg.solve(A[np.ix_(f, f)], A[np.ix_(f, m_)])
+                integrity('StaticCondensation', lambda sg: pym.StaticCondensation(sg, main=np.array(m_), free=np.array(f)), [('A', mk_a())],
+                          lambda outs: [seed_like(outs[0], kk + 1)],
+                          lambda st, outs: close(dense_of(outs[0]), a_of(st)[np.ix_(m_, m_)] - a_of(st)[np.ix_(m_, f)] @
+                                                 np.linalg.solve(a_of(st)[np.ix_(f, f)], a_of(st)[np.ix_(f, m_)])) and close(dense_of(outs[0]), Sref),
+                          dict(module='StaticCondensation', matrix=name, layouts=[ml], A=A.tolist().__repr__(), main=m_, free=f))
+            # ---- LinSolve and SystemOfEquations: every layout of the right-hand side / loads / prescribed values
+            rhs_layouts = [('vec', l) for l in LAY1] + [('blk', l) for l in LAY2]
+            for (bk, bl) in rhs_layouts:
+                kk += 1
+                rc = cplxA and kk % 2 == 0 or (not cplxA and not sparse and kk % 5 == 0)
+                b0 = cast(lc.gen_rhs(rng, n, bk, rc), 'complex' if rc else 'real')
+                Xex = cq_solve(Aex, cq_matrix(b0))
+                integrity('LinSolve', lambda sg: pym.LinSolve(sg), [('A', mk_a()), ('b', lay(b0, bl))],
+                          lambda outs: [seed_like(outs[0], kk)],
+                          lambda st, outs: np.shape(outs[0]) == b0.shape and close(a_of(st) @ as_col(outs[0]), as_col(st[1])) and close(as_col(st[1]), as_col(b0)),
+                          dict(module='LinSolve', matrix=name, layouts=[ml, f'{bk}:{bl}'], A=A.tolist().__repr__(), b=b0.tolist().__repr__()),
+                          coq_second=(lambda outs: coq_check_solve(Aex, 'N', Xex, cq_matrix(b0), outs[0])) if kk % 3 == 0 else None)
+                if not (ml in ACCEPTED['SystemOfEquations'] or not sparse):
+                    continue
+                f, p = [1, 2], [3, 0]
+                kc = 1 if bk == 'vec' else 3
+                lays = LAY1 if bk == 'vec' else LAY2
+                xl = lays[(lays.index(bl) + 1) % len(lays)]
+                bf0 = cast(lc.gen_rhs(rng, len(f), bk, rc), 'complex' if rc else 'real')
+                xp0 = cast(lc.gen_rhs(rng, len(p), bk, rc and kk % 4 == 0), 'complex' if rc and kk % 4 == 0 else 'real')
+                none_seed = kk % 3
+
+                def soe_seeds(outs, none_seed=none_seed):
+                    sx, sb = seed_like(outs[0], kk), seed_like(outs[1], kk + 2)
+                    return [None if none_seed == 1 else sx, None if none_seed == 2 else sb]
+
+                def soe_eq(st, outs, f=f, p=p, bf0=bf0, xp0=xp0):
+                    x_, b_ = as_col(outs[0]), as_col(outs[1])
+                    return close(x_[p], as_col(st[2])) and close(b_[f], as_col(st[1])) and close(a_of(st) @ x_, b_) and \
+                        close(as_col(st[1]), as_col(bf0)) and close(as_col(st[2]), as_col(xp0))
+                integrity('SystemOfEquations', lambda sg: pym.SystemOfEquations(sg, free=np.array(f), prescribed=np.array(p)),
+                          [('A', mk_a()), ('bf', lay(bf0, bl)), ('xp', lay(xp0, xl))], soe_seeds, soe_eq,
+                          dict(module='SystemOfEquations', matrix=name, layouts=[ml, f'{bk}:{bl}', f'{bk}:{xl}'], A=A.tolist().__repr__(),
+                               bf=bf0.tolist().__repr__(), xp=xp0.tolist().__repr__(), free=f, prescribed=p, none_seed=none_seed))
+    ctx.extra['integrity'] = dict(dense_layouts=list(LAY2), vector_layouts=list(LAY1), sparse=['csc', 'csr', 'coo', 'lil'], matrices=[b_[2] for b_ in base])
 
     # ------------------------------------------------------------------ malformed requests
     A3 = np.array([[4., 1, 0], [1, 5, 2], [0, 2, 6]])
